@@ -72,6 +72,19 @@ func C17(c *core.Ctx) {
 			})
 		}
 	}
+	// a tag list without json: the additional-properties block of BOTH methods enumerates the declared keys the same way
+	{
+		y := gen.DefaultConfig()
+		y.Tags = []string{"yaml"}
+		for i, mb := range addPropsMembers(c.Tier, y) {
+			if c.Tier != "thorough" && i%2 == 1 {
+				continue
+			}
+			runMember(c, mb, rules, 64, func(w *fam.World, fm *fam.FileModel) []fam.Issue {
+				return append(fam.SibIssues(fm), fam.TagParityIssues(fm)...)
+			})
+		}
+	}
 	c.Floor("families", c.Counts["members"], 300, "family members")
 }
 
